@@ -580,6 +580,122 @@ def r09_12(run, model):
     run.floor("(early return, translated sub-term) pairs examined", n, 15)
 
 
+def r09_13(run, model):
+    run.rule("R09.13", "only the selected branch runs in the emitted Go: where a sibling lowering of the back end (effect / assign / return) "
+                       "lowers the branches of an `if`, the statements of a branch are used nowhere but inside the corresponding block of the "
+                       "one `goast::Stmt::If` it builds - hoisting the else branch in front of the test (`x = b; if c { x = a }`) runs it "
+                       "unconditionally and first")
+    GO = "crates/compiler/src/go/compile.rs"
+    sib = [f for f in model.fns(GO) if f.body is not None and re.fullmatch(r"compile_aexpr(_\w+)?", f.name) and
+           any("AExpr" in (p["ty"] or "") for p in f.params() if not p["self"])]
+    n = 0
+    for f in sib:
+        for m_ in S.find(f.body, "Match"):
+            for arm in m_["arms"]:
+                pt = S.norm_ws(run.facts.text(GO, arm["pat"]["sp"]))
+                if not re.match(r"(anf::)?CExpr::EIf\{", pt):
+                    continue
+                par = S.Parents(arm["body"])
+                branch_locals = {}
+                for l in S.find(arm["body"], "Local"):
+                    if l["pat"]["k"] == "PIdent" and l.get("init") is not None and (S.idents(l["init"]) & {"then", "else_"}) and \
+                            any(True for _ in S.calls(l["init"], f.name)):
+                        branch_locals[l["pat"]["name"]] = l
+                if not branch_locals:
+                    continue
+                for nm, l in sorted(branch_locals.items()):
+                    n += 1
+                    stray = []
+                    for x in S.walk(arm["body"]):
+                        if x["k"] == "Path" and x["segs"] == [nm]:
+                            anc = list(par.ancestors(x))
+                            inside_if = any(a["k"] == "Struct" and a["segs"][-1] == "If" for a in anc)
+                            inside_block = any(a["k"] == "Struct" and a["segs"][-1] == "Block" for a in anc)
+                            holder = next((a for a in anc if a["k"] == "Local"), None)
+                            via_block_local = holder is not None and holder is not l and holder["pat"]["k"] == "PIdent" and inside_block
+                            if not (inside_if or via_block_local):
+                                stray.append(x)
+                    run.ob("R09.13", f"{f.name}|statements of `{nm}` stay inside their branch of the If", not stray, site(GO, (stray or [l])[0]["sp"]),
+                           f"uses of `{nm}` outside goast::Stmt::If / goast::Block: {len(stray)}",
+                           witness="let r = if c { eff(1) } else { eff(2) }: eff(2) runs every time and before eff(1)")
+    run.floor("branch statement lists of the sibling lowerings", n, 6)
+
+
+def r09_14(run, model):
+    run.rule("R09.14", "an arm that leaves early has translated every sub-term first: in every arm of a rewriting pass, before each `return`, "
+                       "each field of the matched node that carries sub-terms was handed to the traversal (or the path has established that it "
+                       "is a form without sub-terms) - a shortcut that returns the translation of one child alone drops the others with their "
+                       "effects (`match eff(1) { _ => eff(2) }` must still run eff(1))")
+    from lib import passes as P
+    trs = P.discover(model, min_cover=5, include_pprint=False)
+    n = 0
+    for t in trs:
+        if t.enum_name == "Ty":
+            continue
+        ret = (t.fn.node.get("ret") or "")
+        if not any(re.search(r"(?<![A-Za-z0-9_])" + en + r"(?![A-Za-z0-9_])", ret) for en in P.IR_ENUMS | {"ExprId"}):
+            continue
+        peers = [g for g in model.fns(t.fn.file) if g.body is not None]
+        rec = {t.fn.name}
+        grew = True
+        while grew:
+            grew = False
+            for g in peers:
+                if g.name not in rec and any(True for _ in S.calls(g.body, *rec)):
+                    rec.add(g.name)
+                    grew = True
+        variants = {v["name"]: v for v in t.enum["variants"]}
+        for vname, lst in sorted(t.covered.items()):
+            v = variants.get(vname)
+            if v is None:
+                continue
+            kids = P.child_fields(v, t.enum["name"], extra=("ImmExpr", "AExpr", "CExpr", "Expr"))
+            if not kids:
+                continue
+            for arm, alt in lst:
+                rets = [r for r in S.walk_no_closures(arm["body"]) if r["k"] == "Return"]
+                if not rets:
+                    continue
+                b, _rest = P.arm_field_bindings(alt)
+                par = S.Parents(arm["body"])
+                for ri, r in enumerate(rets, 1):
+                    for k in kids:
+                        nm = b.get(k)
+                        if not isinstance(nm, str):
+                            continue
+                        n += 1
+                        ok, why = False, "not handed to the traversal before this return"
+                        for c in S.walk(arm["body"]):
+                            if c["k"] in ("Call", "MethodCall") and S.callee_name(c) in rec and (c["sp"][0], c["sp"][1]) <= (r["sp"][2], r["sp"][3]):
+                                if any(nm in S.idents(a) for a in c["args"]):
+                                    ok = True
+                                for a in par.ancestors(c):
+                                    if (a["k"] == "MethodCall" and nm in S.idents(a["recv"])) or (a["k"] == "For" and nm in S.idents(a["iter"])):
+                                        ok = True
+                        if ok:
+                            why = "translated before this return"
+                        else:
+                            for a in par.ancestors(r):
+                                conds = []
+                                if a["k"] == "If" and S.span_contains(a["then"]["sp"], r["sp"]):
+                                    conds = [x for x in S.walk(a["cond"]) if x["k"] == "Let"]
+                                for l in conds:
+                                    if nm in S.idents(l["expr"]):
+                                        h = S.pat_head(l["pat"])
+                                        if h[0] == "variant" and len(h[1]) >= 2:
+                                            try:
+                                                ed = model.resolve_enum(t.fn.file, h[1][-2], [h[1][-1]])
+                                            except Exception:
+                                                ed = None
+                                            vv = next((x for x in (ed or {}).get("variants", []) if x["name"] == h[1][-1]), None)
+                                            if vv is not None and not P.child_fields(vv, ed["name"], extra=("ImmExpr", "AExpr", "CExpr", "Expr")):
+                                                ok, why = True, f"the path has matched `{nm}` against {h[1][-2]}::{h[1][-1]}, a form without sub-terms"
+                        run.ob("R09.14", f"{t.fn.name}|{vname}.{k} is translated before return #{ri}", ok, site(t.fn.file, r["sp"]), why,
+                               witness="match eff(1) { _ => eff(2) }: the arm for a leading wildcard returns the translation of the arm body alone; "
+                                       "eff(1) never runs")
+    run.floor("(early return, sub-term field) pairs examined", n, 18)
+
+
 def run(run, model):
     run.try_rule(r09_10, model)
     run.try_rule(r09_11, model)
@@ -594,4 +710,6 @@ def run(run, model):
     run.try_rule(r09_4, model)
     run.try_rule(r09_5, model)
     run.try_rule(r09_12, model)
+    run.try_rule(r09_13, model)
+    run.try_rule(r09_14, model)
     run.assume("children of a Lift IR variant are declared in source evaluation order (callee, arguments; lhs, rhs; receiver, arguments) - read and confirmed for ECall, EBinary, EDynCall")
